@@ -77,6 +77,7 @@ func (a *AVP) DecodeFromBytes(data []byte, application uint32, dictionary *dict.
 		payload = data[12:]
 		hdrLength = 12
 	} else {
+		a.VendorID = 0 // the AVP value may have held a vendor-specific AVP before
 		payload = data[8:]
 		hdrLength = 8
 	}
